@@ -29,6 +29,9 @@ Static clauses decided (necessary conditions of C28):
          bit 0) must never feed `_wbits_`: a volatile Json/array attribute changed in place would get write bit 0, the object
          would not be queued and the change would never be written.  Checked for every statement in core.py that adds bits to
          an object's _wbits_ (Attribute.__set__, Entity.set, Entity._attr_changed_).
+ BITS+   after a write bit is added, under each persistent status (loaded / inserted / updated) every normal path reaches
+         objects_to_save.append(obj).
+ WRAP+   tracked_method adopts positional and keyword arguments together (reaching definitions at the wrapped call).
 """
 NOT_DECIDED = "that the value written at commit equals the in-memory value; aliasing between two attributes"
 
